@@ -454,11 +454,30 @@ func c05HasNonNil(facts []ecFact, v ssa.Value) bool {
 }
 
 // helperLeaves visits the returns of the static repository callees (transitively, depth 3) whose error result is
-// returned by top.
+// returned by top. Facts of a helper that speak about one of its parameters are translated to the call's argument,
+// so a helper that receives the unit source's `more` / error value keeps the exhaustion evidence.
 func (x *c05ctx) helperLeaves(top *ssa.Function, visit func(c05Leaf)) {
 	e := x.e
-	var descend func(g *ssa.Function, idx int, outer []ecFact, nonNil, mayEOF bool, via []*ssa.Function)
-	follow := func(fn *ssa.Function, src c05Src, outer []ecFact, nonNil, mayEOF bool, via []*ssa.Function) {
+	type subst func([]ecFact) []ecFact
+	ident := func(f []ecFact) []ecFact { return f }
+	mkSubst := func(g *ssa.Function, call *ssa.Call, outer subst) subst {
+		return func(fs []ecFact) []ecFact {
+			out := make([]ecFact, 0, len(fs))
+			for _, f := range fs {
+				if prm, ok := f.V.(*ssa.Parameter); ok && prm.Parent() == g {
+					for i, q := range g.Params {
+						if q == prm && i < len(call.Call.Args) {
+							f.V = ecUnwrapIface(call.Call.Args[i])
+						}
+					}
+				}
+				out = append(out, f)
+			}
+			return outer(out)
+		}
+	}
+	var descend func(g *ssa.Function, idx int, sb subst, outer []ecFact, nonNil, mayEOF bool, via []*ssa.Function)
+	follow := func(sb subst, src c05Src, outer []ecFact, nonNil, mayEOF bool, via []*ssa.Function) {
 		call := c05CallOf(src.v)
 		if call == nil || call.Call.IsInvoke() {
 			return
@@ -479,12 +498,12 @@ func (x *c05ctx) helperLeaves(top *ssa.Function, visit func(c05Leaf)) {
 		if idx >= g.Signature.Results().Len() || !ecIsError(g.Signature.Results().At(idx).Type()) {
 			return
 		}
-		facts := append(append([]ecFact{}, outer...), e.factsAt(src.pt)...)
-		facts = append(facts, e.factsAt(ecPointOf(call))...)
+		here := append(append([]ecFact{}, e.factsAt(src.pt)...), e.factsAt(ecPointOf(call))...)
+		facts := append(append([]ecFact{}, outer...), sb(here)...)
 		cls := e.classAt(src.v, src.pt)
-		descend(g, idx, facts, nonNil || c05HasNonNil(facts, src.v), mayEOF && (cls.has(ecEOF) || cls.has(ecTOP)), append(append([]*ssa.Function{}, via...), g))
+		descend(g, idx, mkSubst(g, call, sb), facts, nonNil || c05HasNonNil(here, src.v), mayEOF && (cls.has(ecEOF) || cls.has(ecTOP)), append(append([]*ssa.Function{}, via...), g))
 	}
-	descend = func(g *ssa.Function, idx int, outer []ecFact, nonNil, mayEOF bool, via []*ssa.Function) {
+	descend = func(g *ssa.Function, idx int, sb subst, outer []ecFact, nonNil, mayEOF bool, via []*ssa.Function) {
 		for _, rt := range ecReturns(g) {
 			if idx >= len(rt.Results) {
 				continue
@@ -493,9 +512,9 @@ func (x *c05ctx) helperLeaves(top *ssa.Function, visit func(c05Leaf)) {
 			c05Sources(rt.Results[idx], ecPointOf(rt), map[ssa.Value]bool{}, &srcs)
 			for _, s := range srcs {
 				local := e.factsAt(s.pt)
-				visit(c05Leaf{rt: rt, pt: s.pt, val: s.v, local: local, facts: append(append([]ecFact{}, local...), outer...),
+				visit(c05Leaf{rt: rt, pt: s.pt, val: s.v, local: local, facts: append(sb(local), outer...),
 					nonNil: nonNil, mayEOF: mayEOF, via: via})
-				follow(g, s, outer, nonNil, mayEOF, via)
+				follow(sb, s, outer, nonNil, mayEOF, via)
 			}
 		}
 	}
@@ -508,7 +527,7 @@ func (x *c05ctx) helperLeaves(top *ssa.Function, visit func(c05Leaf)) {
 			var srcs []c05Src
 			c05Sources(rt.Results[i], ecPointOf(rt), map[ssa.Value]bool{}, &srcs)
 			for _, s := range srcs {
-				follow(top, s, nil, false, true, nil)
+				follow(ident, s, nil, false, true, nil)
 			}
 		}
 	}
@@ -522,16 +541,26 @@ func (x *c05ctx) ruleMore() {
 	seen := map[*types.Func]bool{}
 	var methods []*types.Func
 	for _, h := range x.hs {
-		for _, ci := range core.Calls(h.Read) {
-			cc := ci.Common()
-			if cc.IsInvoke() && c05IsBoolErrSig(cc.Signature()) && cc.Signature().Params().Len() == 0 && !seen[cc.Method] {
+		for _, fn := range x.readClosure(h) {
+			for _, ci := range core.Calls(fn) {
+				cc := ci.Common()
+				if !cc.IsInvoke() || !c05IsBoolErrSig(cc.Signature()) || cc.Signature().Params().Len() != 0 || seen[cc.Method] {
+					continue
+				}
+				if fn != h.Read {
+					// in a helper of Read the unit source must be the reader's own interface-typed field
+					fld, _ := c05FieldLoad(cc.Value)
+					if fld == nil || !c05FieldOf(h.T, fld) {
+						continue
+					}
+				}
 				seen[cc.Method] = true
 				methods = append(methods, cc.Method)
 			}
 		}
 	}
 	if len(methods) == 0 {
-		c.Unresolved("R05a.ii", "unit-source method", "no interface method () (bool, error) is invoked by a hierarchical reader's Read")
+		c.Unresolved("R05a.ii", "unit-source method", "no interface method () (bool, error) is invoked by a hierarchical reader's Read or by the same-package functions it calls")
 		return
 	}
 	for _, m := range methods {
@@ -588,6 +617,45 @@ func (x *c05ctx) ruleMore() {
 			}
 		}
 	}
+}
+
+// readClosure: Read and the same-package repository functions it statically calls (depth 3), in deterministic order.
+func (x *c05ctx) readClosure(h *c05H) []*ssa.Function {
+	seen := map[*ssa.Function]bool{h.Read: true}
+	out := []*ssa.Function{h.Read}
+	level := []*ssa.Function{h.Read}
+	for d := 0; d < 3; d++ {
+		var next []*ssa.Function
+		for _, f := range level {
+			var cs []*ssa.Function
+			for _, ci := range core.Calls(f) {
+				g := ci.Common().StaticCallee()
+				if g == nil || g.Blocks == nil || seen[g] || core.FuncPkg(g) != core.FuncPkg(h.Read) {
+					continue
+				}
+				seen[g] = true
+				cs = append(cs, g)
+			}
+			sort.Slice(cs, func(i, j int) bool { return core.FuncKey(cs[i]) < core.FuncKey(cs[j]) })
+			next = append(next, cs...)
+		}
+		out = append(out, next...)
+		level = next
+	}
+	return out
+}
+
+func c05FieldOf(n *types.Named, fld *types.Var) bool {
+	st, ok := n.Underlying().(*types.Struct)
+	if !ok {
+		return false
+	}
+	for i := 0; i < st.NumFields(); i++ {
+		if st.Field(i) == fld {
+			return true
+		}
+	}
+	return false
 }
 
 func c05LenFields(fn *ssa.Function, out map[*types.Var]bool) {
